@@ -221,7 +221,7 @@ pub fn c01_step(sys: &Sys, ev0: usize, ctx: &mut Ctx) {
 /// C07 step: nothing that depends on a failed target starts
 pub fn c07_step(sys: &Sys, ev0: usize, ctx: &mut Ctx) {
     let new = sys.events_from(ev0);
-    if !new.iter().any(|e| matches!(e, Ev::Spawn { .. } | Ev::Kill { .. })) {
+    if !new.iter().any(|e| matches!(e, Ev::Spawn { .. } | Ev::Kill { .. } | Ev::Relayed { .. })) {
         return;
     }
     let all = sys.events_from(0);
@@ -229,6 +229,28 @@ pub fn c07_step(sys: &Sys, ev0: usize, ctx: &mut Ctx) {
     for (off, e) in new.iter().enumerate() {
         let before = &all[..ev0 + off];
         match e {
+            // a failed execution never produces an acknowledgement (reduced mode: the relay is eager, so the
+            // sender's history at relay time is its history at send time)
+            Ev::Relayed { desc, .. } if !cfg.exact => {
+                let (v, k, d) = parse_msg(desc);
+                if v == "Ok" && desc.contains("actual: true") {
+                    let hd = sys.hist(&d);
+                    let last = hd.iter().rev().find(|m| m.starts_with("finish") || m.as_str() == "spawnfail" || (m.as_str() == "spawn" && cfg.spec(&d).kind == Kind::S));
+                    let bad = match (cfg.spec(&d).kind, k.as_str(), last.map(|s| s.as_str())) {
+                        (Kind::B, "Build", Some("finish0")) => false,
+                        (Kind::S, "Service", Some("spawn")) => false,
+                        (Kind::A, _, _) => false,
+                        _ => true,
+                    };
+                    ctx.count("acknowledgements of leaves checked against their last execution");
+                    if bad {
+                        ctx.violation(format!("ok-sent-after-failed-execution:{:?}", cfg.spec(&d).kind), format!("{} sent Ok{{{}}} although its last execution is {:?}", d, k, last));
+                    }
+                }
+            }
+            // in watch mode a dependent may legitimately start on the acknowledgement of an earlier
+            // successful execution that is still in flight when the dependency fails again
+            Ev::Spawn { .. } if cfg.watch => {}
             Ev::Spawn { t, .. } => {
                 for d in cfg.deps_star(t) {
                     // failed and not since succeeded
@@ -572,6 +594,7 @@ pub fn c17_step(sys: &Sys, ev0: usize, ctx: &mut Ctx) {
 // drivers
 
 pub struct SweepOut {
+    pub per: Vec<(Cfg, Stats)>,
     pub total: Stats,
     pub per_cfg: Vec<(String, u64, u64, bool)>,
     pub findings: Vec<Finding>,
@@ -614,7 +637,8 @@ pub fn sweep(cfgs: Vec<Cfg>, checks: &(dyn Fn(&Cfg) -> Checks + Sync), deadline:
         }
     }
     total.wall_s = results.iter().map(|(_, s)| s.wall_s).sum();
-    SweepOut { total, per_cfg, findings: findings.into_values().collect() }
+    let per = cfgs.iter().cloned().zip(results.into_iter().map(|(_, s)| s)).collect();
+    SweepOut { per, total, per_cfg, findings: findings.into_values().collect() }
 }
 
 pub fn fill_report(rep: &mut Report, out: &SweepOut, label: &str) {
@@ -768,5 +792,387 @@ pub fn check_c04(rep: &mut Report) {
         let out = sweep(coarse, &mk, dl, 5_000_000);
         fill_report(rep, &out, "handler-level (under-approximation, labelled): named 5-target shapes");
     }
+    finalize(rep);
+}
+
+fn std_checks(step: fn(&Sys, usize, &mut Ctx), term: fn(&Sys, &mut Ctx)) -> impl Fn(&Cfg) -> Checks + Sync {
+    move |_: &Cfg| Checks { step: Box::new(step), terminal: Box::new(move |s, c| { term(s, c); observation(s) }) }
+}
+fn noop_term(_: &Sys, _: &mut Ctx) {}
+
+fn leaves(c: &Cfg) -> Vec<String> {
+    c.targets.iter().filter(|t| t.kind != Kind::A).map(|t| t.name.clone()).collect()
+}
+fn builds(c: &Cfg) -> Vec<String> {
+    c.targets.iter().filter(|t| t.kind == Kind::B).map(|t| t.name.clone()).collect()
+}
+fn single_root(c: &Cfg) -> bool {
+    c.roots.len() == 1
+}
+fn with_inputs(mut c: Cfg) -> Cfg {
+    for t in c.targets.iter_mut() {
+        if t.kind != Kind::A {
+            t.has_input = true;
+        }
+    }
+    c
+}
+
+/// watch-mode configurations (scheduling only): every leaf has an input, `budget` notifications
+fn watch_cfgs(max_n: usize, max_roots: usize, budget: u32) -> Vec<Cfg> {
+    small_cfgs(max_n, max_roots)
+        .into_iter()
+        .filter(distinct_roots)
+        .map(|c| {
+            let mut c = with_inputs(c);
+            c.watch = true;
+            c.notify_budget = budget;
+            c
+        })
+        .collect()
+}
+
+pub fn check_c01(rep: &mut Report) {
+    let mk = std_checks(c01_step, noop_term);
+    let dl = deadline(rep, 150, 3000);
+    let out = sweep(oneshot_small(rep.thorough()), &mk, dl, 3_000_000);
+    fill_report(rep, &out, "one-shot, reduced: all graphs <=3 targets x requested lists <=2");
+    let out = sweep(named4_for(rep.thorough()), &mk, dl, 3_000_000);
+    fill_report(rep, &out, "one-shot, reduced: named 4-target shapes");
+    // failing singletons (both outcomes explored)
+    let mut failing = vec![];
+    for c in small_cfgs(if rep.thorough() { 3 } else { 2 }, 2).into_iter().filter(distinct_roots) {
+        for b in builds(&c) {
+            let mut f = c.clone();
+            f.may_fail = vec![b];
+            failing.push(f);
+        }
+    }
+    let out = sweep(failing, &mk, dl, 3_000_000);
+    fill_report(rep, &out, "one-shot, reduced: one build may fail");
+    // watch mode: after each out-of-date notice
+    let out = sweep(watch_cfgs(2, 2, if rep.thorough() { 2 } else { 1 }), &mk, dl, 3_000_000);
+    fill_report(rep, &out, "watch, reduced: graphs <=2 targets, notification budget 1 (2 thorough)");
+    let w3: Vec<Cfg> = watch_cfgs(3, 1, 1).into_iter().filter(|c| c.targets.len() == 3).collect();
+    let w3: Vec<Cfg> = if rep.thorough() { w3 } else { w3.into_iter().filter(|c| c.targets.iter().all(|t| t.kind != Kind::A || !t.deps.is_empty())).step_by(3).collect() };
+    let out = sweep(w3, &mk, dl, 1_500_000);
+    fill_report(rep, &out, "watch, reduced: graphs with 3 targets, single root, budget 1 (quick: every third shape)");
+    if rep.thorough() {
+        let out = sweep(with_orders(shape_cfgs(4, 1)), &mk, dl, 3_000_000);
+        fill_report(rep, &out, "one-shot, reduced: all graphs with 4 targets, single root");
+    }
+    finalize(rep);
+}
+
+pub fn check_c07(rep: &mut Report) {
+    let mk = std_checks(c07_step, c07_terminal);
+    let dl = deadline(rep, 150, 3000);
+    // every subset of failing builds: each build may fail or succeed (both outcomes at every finish)
+    let mut v = vec![];
+    let base: Vec<Cfg> = if rep.thorough() { small_cfgs(3, 2).into_iter().filter(distinct_roots).collect() } else { small_cfgs(2, 2).into_iter().filter(distinct_roots).chain(shape_cfgs(3, 1)).collect() };
+    for c in &base {
+        if builds(c).is_empty() {
+            continue;
+        }
+        let mut f = c.clone();
+        f.may_fail = builds(c);
+        v.push(f);
+    }
+    let out = sweep(v, &mk, dl, 3_000_000);
+    fill_report(rep, &out, "one-shot: every build may exit non-zero (all subsets of failing builds)");
+    // launch failures: every singleton (quick) / every non-empty subset (thorough) of leaves cannot be launched
+    let mut v = vec![];
+    for c in &base {
+        let ls = leaves(c);
+        let n = ls.len();
+        for mask in 1u32..(1 << n) {
+            if !rep.thorough() && mask.count_ones() != 1 {
+                continue;
+            }
+            let mut f = c.clone();
+            f.launch_fail = (0..n).filter(|i| mask & (1 << i) != 0).map(|i| ls[i].clone()).collect();
+            f.may_fail = builds(c).into_iter().filter(|b| !f.launch_fail.contains(b)).collect();
+            v.push(f);
+        }
+    }
+    let out = sweep(v, &mk, dl, 3_000_000);
+    fill_report(rep, &out, "one-shot: targets that cannot be launched (singletons; all subsets thorough) x other builds may fail");
+    // named 4 shapes with every build failing-or-not
+    let mut v = vec![];
+    for c in named4_for(rep.thorough()) {
+        let mut f = c.clone();
+        f.may_fail = builds(&c);
+        v.push(f);
+    }
+    let v: Vec<Cfg> = if rep.thorough() { v } else { v.into_iter().filter(|c| c.name != "two-roots-sharing-leaf" && c.name != "diamond-S-middle").collect() };
+    let out = sweep(v, &mk, dl, 3_000_000);
+    fill_report(rep, &out, "one-shot: named 4-target shapes, every build may fail");
+    // watch mode: failure reported, dependents blocked, relay keeps going, later change handled
+    let mut v = vec![];
+    for c in watch_cfgs(if rep.thorough() { 3 } else { 2 }, 1, 1) {
+        if builds(&c).is_empty() {
+            continue;
+        }
+        let mut f = c.clone();
+        f.may_fail = builds(&c);
+        v.push(f.clone());
+        for l in leaves(&c) {
+            let mut g = c.clone();
+            g.launch_fail = vec![l];
+            v.push(g);
+        }
+    }
+    let out = sweep(v, &mk, dl, 3_000_000);
+    fill_report(rep, &out, "watch: every build may fail / one leaf cannot be launched, one later notification");
+    finalize(rep);
+}
+
+pub fn check_c08(rep: &mut Report) {
+    let mk = std_checks(c08_step, c08_terminal);
+    let dl = deadline(rep, 150, 3000);
+    let out = sweep(oneshot_small(rep.thorough()), &mk, dl, 3_000_000);
+    fill_report(rep, &out, "reduced: all graphs <=3 targets x requested lists <=2 (dependency together with dependent, both orders)");
+    // duplicates in the requested list, lists up to 3
+    let dup: Vec<Cfg> = with_orders(small_cfgs(2, 3));
+    let out = sweep(dup, &mk, dl, 3_000_000);
+    fill_report(rep, &out, "reduced: graphs <=2 targets x requested lists <=3 with duplicates");
+    let out = sweep(named4_for(rep.thorough()), &mk, dl, 3_000_000);
+    fill_report(rep, &out, "reduced: named 4-target shapes");
+    // at most once also when something fails or a signal arrives
+    let mut v = vec![];
+    for c in small_cfgs(2, 2).into_iter().chain(if rep.thorough() { shape_cfgs(3, 1) } else { vec![] }) {
+        let mut f = c.clone();
+        f.may_fail = builds(&c);
+        f.sigterm = true;
+        v.push(f);
+    }
+    let out = sweep(v, &mk, dl, 3_000_000);
+    fill_report(rep, &out, "reduced: graphs <=2 targets (3 thorough), every build may fail, signal at every state");
+    finalize(rep);
+}
+
+pub fn check_c10(rep: &mut Report) {
+    let mk = std_checks(c10_step, c10_terminal);
+    let dl = deadline(rep, 150, 3000);
+    // exact mode, signal at every state, afterwards no script ends by itself
+    let mut v = vec![];
+    let caps: Vec<Option<usize>> = vec![Some(2), None];
+    let base: Vec<Cfg> = small_cfgs(2, 2).into_iter().filter(distinct_roots).collect();
+    for cap in &caps {
+        for c in &base {
+            for watch in [false, true] {
+                let mut e = c.clone();
+                e.exact = true;
+                e.cap = *cap;
+                e.sigterm = true;
+                e.freeze_after_exit_begins = true;
+                e.watch = watch;
+                v.push(e);
+            }
+        }
+    }
+    let out = sweep(v, &mk, dl, 3_000_000);
+    fill_report(rep, &out, "exact: graphs <=2 targets, one-shot and watch, queue capacity 2 and 64, signal injected at every state, restricted afterwards");
+    // failure exit path
+    let mut v = vec![];
+    for c in &base {
+        if builds(c).is_empty() {
+            continue;
+        }
+        let mut e = c.clone();
+        e.exact = true;
+        e.cap = Some(2);
+        e.may_fail = builds(c);
+        e.freeze_after_exit_begins = true;
+        v.push(e.clone());
+        for l in leaves(c) {
+            let mut g = e.clone();
+            g.may_fail = vec![];
+            g.launch_fail = vec![l];
+            v.push(g);
+        }
+    }
+    let out = sweep(v, &mk, dl, 3_000_000);
+    fill_report(rep, &out, "exact: failure exit path (every build may fail / a leaf cannot be launched), restricted afterwards");
+    // three targets, reduced mode (relay eager), signal at every state
+    let mut v = vec![];
+    let three: Vec<Cfg> = if rep.thorough() { shape_cfgs(3, 2).into_iter().filter(distinct_roots).collect() } else { shape_cfgs(3, 1).into_iter().step_by(3).collect() };
+    for c in three {
+        let mut e = c.clone();
+        e.sigterm = true;
+        e.freeze_after_exit_begins = true;
+        v.push(e);
+    }
+    let out = sweep(v, &mk, dl, 3_000_000);
+    fill_report(rep, &out, "reduced: graphs with 3 targets (quick: every third shape, single root), signal injected at every state, restricted afterwards");
+    let mut v = vec![];
+    for c in named4_for(false).into_iter().filter(|c| rep.thorough() || ["agg-over-B+S", "nested-aggregates", "B-S-B-chain", "dep-before-dependent"].contains(&c.name.as_str())) {
+        let mut e = c.clone();
+        e.sigterm = true;
+        e.freeze_after_exit_begins = true;
+        v.push(e);
+    }
+    if rep.thorough() {
+        // fan-out wider than the queue in exact mode
+        for k in [3usize, 4] {
+            let mut e = fan_out(k, Kind::A, Kind::B);
+            e.exact = true;
+            e.cap = Some(2);
+            e.sigterm = true;
+            e.freeze_after_exit_begins = true;
+            v.push(e);
+        }
+    }
+    let out = sweep(v, &mk, dl, 5_000_000);
+    fill_report(rep, &out, "reduced: named 4-target shapes with signal (thorough: + exact fan-out 3,4 at capacity 2)");
+    finalize(rep);
+}
+
+fn has_service(c: &Cfg) -> bool {
+    c.targets.iter().any(|t| t.kind == Kind::S)
+}
+
+pub fn check_c11(rep: &mut Report) {
+    let mk = std_checks(c11_step, c11_terminal);
+    let dl = deadline(rep, 150, 3000);
+    let out = sweep(oneshot_small(rep.thorough()).into_iter().filter(has_service).collect(), &mk, dl, 3_000_000);
+    fill_report(rep, &out, "one-shot, reduced: all graphs <=3 targets containing a service x requested lists <=2");
+    let out = sweep(named4_for(rep.thorough()).into_iter().filter(has_service).collect(), &mk, dl, 3_000_000);
+    fill_report(rep, &out, "one-shot, reduced: named 4-target shapes containing a service");
+    // with a signal: dependency-only services are stopped at exit, requested ones only then
+    let mut v = vec![];
+    for c in small_cfgs(2, 2).into_iter().filter(has_service).filter(distinct_roots) {
+        let mut e = c.clone();
+        e.sigterm = true;
+        v.push(e);
+    }
+    let out = sweep(v, &mk, dl, 3_000_000);
+    fill_report(rep, &out, "one-shot, reduced: graphs <=2 targets with a service, signal at every state");
+    // watch mode: restarts never overlap
+    let budget = if rep.thorough() { 3 } else { 2 };
+    let v: Vec<Cfg> = watch_cfgs(2, 2, budget).into_iter().filter(has_service).collect();
+    let out = sweep(v, &mk, dl, 3_000_000);
+    fill_report(rep, &out, "watch, reduced: graphs <=2 targets with a service, notification budget 2 (3 thorough)");
+    if rep.thorough() {
+        let v: Vec<Cfg> = watch_cfgs(3, 1, 1).into_iter().filter(has_service).filter(|c| c.targets.len() == 3).collect();
+        let out = sweep(v, &mk, dl, 3_000_000);
+        fill_report(rep, &out, "watch, reduced: graphs with 3 targets with a service, budget 1");
+    }
+    finalize(rep);
+}
+
+pub fn check_c17(rep: &mut Report) {
+    let dl = deadline(rep, 150, 3000);
+    // (1) restricted systems R_X
+    let base: Vec<Cfg> = if rep.thorough() { oneshot_small(false).into_iter().chain(named4_for(false)).collect() } else { small_cfgs(2, 2).into_iter().filter(distinct_roots).chain(shape_cfgs(3, 1)).chain(named4_for(false).into_iter().filter(|c| c.name != "two-roots-sharing-leaf" && c.name != "diamond-S-middle")).collect() };
+    let mut v = vec![];
+    let mut xs = vec![];
+    for c in &base {
+        for x in leaves(c) {
+            let ds = c.deps_star(&x);
+            let nf: Vec<String> = builds(c).into_iter().filter(|b| !ds.contains(b)).collect();
+            if nf.iter().all(|b| b == &x) && nf.len() <= 1 && builds(c).len() <= 1 {
+                continue;
+            }
+            let mut r = c.clone();
+            r.no_finish = nf;
+            r.name = format!("{} R_{}", c.name, x);
+            v.push(r);
+            xs.push(x);
+        }
+    }
+    let xs_by_short: BTreeMap<String, String> = v.iter().zip(xs.iter()).map(|(c, x)| (format!("{}|{}", c.name, c.short()), x.clone())).collect();
+    let mk = move |c: &Cfg| {
+        let x = xs_by_short[&format!("{}|{}", c.name, c.short())].clone();
+        let term = c17_terminal_for(x);
+        Checks { step: Box::new(noop_step), terminal: Box::new(move |s, ctx| { term(s, ctx); observation(s) }) }
+    };
+    let out = sweep(v, &mk, dl, 3_000_000);
+    fill_report(rep, &out, "restricted systems R_X: scripts of targets X does not depend on never end; X must start on every maximal path");
+    // (2) witnesses: every pair of mutually independent leaves can be in progress at the same time
+    let mk2 = std_checks(c17_step, noop_term);
+    let out = sweep(base.clone(), &mk2, dl, 3_000_000);
+    let mut pairs = 0u64;
+    let mut samples = vec![];
+    for (c, st) in &out.per {
+        if st.capped {
+            continue;
+        }
+        let ls = leaves(c);
+        for i in 0..ls.len() {
+            for j in 0..ls.len() {
+                if ls[i] < ls[j] && !c.deps_star(&ls[i]).contains(&ls[j]) && !c.deps_star(&ls[j]).contains(&ls[i]) {
+                    pairs += 1;
+                    let n = st.counters.get(&format!("both running: {},{}", ls[i], ls[j])).cloned().unwrap_or(0);
+                    if n == 0 {
+                        rep.violation(
+                            format!("independent-pair-never-concurrent:{:?},{:?}", c.spec(&ls[i]).kind, c.spec(&ls[j]).kind),
+                            format!("in {} no reachable state has {} and {} in progress at the same time although neither depends on the other", c.short(), ls[i], ls[j]),
+                            json!({"engine": "actorcheck", "cfg": c, "actions": [], "cfg_short": c.short(), "note": "liveness-style finding: the exhaustive exploration of this configuration contains no state with both running"}),
+                        );
+                    } else if samples.len() < 3 {
+                        samples.push(json!({"cfg": c.short(), "pair": [ls[i], ls[j]], "states_with_both_running": n}));
+                    }
+                }
+            }
+        }
+    }
+    fill_report(rep, &out, "unrestricted: witnesses for every independent pair");
+    rep.set("independent_pairs_checked", json!(pairs));
+    rep.set("pair_witness_samples", json!(samples));
+    finalize(rep);
+}
+
+pub fn check_c20(rep: &mut Report) {
+    let dl = deadline(rep, 150, 3000);
+    // configurations whose single root is an aggregate
+    let mut base: Vec<Cfg> = small_cfgs(3, 1).into_iter().filter(|c| c.spec(&c.roots[0]).kind == Kind::A).collect();
+    base.extend(named4().into_iter().filter(|c| c.roots.len() == 1 && c.spec(&c.roots[0]).kind == Kind::A));
+    if rep.thorough() {
+        base.extend(shape_cfgs(4, 1).into_iter().filter(|c| c.spec(&c.roots[0]).kind == Kind::A));
+    }
+    let mut lhs = vec![];
+    let mut rhs = vec![];
+    for c in &base {
+        let variants: Vec<Vec<String>> = if rep.thorough() || c.targets.len() <= 3 { std::iter::once(vec![]).chain(builds(c).into_iter().map(|b| vec![b])).collect() } else { vec![vec![]] };
+        for mf in variants {
+            let mut l = c.clone();
+            l.may_fail = mf.clone();
+            let mut r = l.clone();
+            r.roots = c.spec(&c.roots[0]).deps.clone();
+            // the aggregate itself is outside the closure of the right-hand side
+            let keep: BTreeSet<String> = r.closure();
+            r.targets.retain(|t| keep.contains(&t.name));
+            lhs.push(l);
+            rhs.push(r);
+        }
+    }
+    let mk = std_checks(c01_step, noop_term);
+    let out_l = sweep(lhs.clone(), &mk, dl, 3_000_000);
+    let out_r = sweep(rhs.clone(), &mk, dl, 3_000_000);
+    let mut compared = 0u64;
+    for (i, ((cl, sl), (cr, sr))) in out_l.per.iter().zip(out_r.per.iter()).enumerate() {
+        if sl.capped || sr.capped {
+            continue;
+        }
+        compared += 1;
+        let ol: BTreeSet<&String> = sl.observations.keys().collect();
+        let or: BTreeSet<&String> = sr.observations.keys().collect();
+        if ol != or {
+            let only_l: Vec<&&String> = ol.difference(&or).collect();
+            let only_r: Vec<&&String> = or.difference(&ol).collect();
+            let class = |o: &str| -> String { o.split(" children=").next().unwrap_or("").to_string() };
+            let fl: BTreeSet<String> = only_l.iter().map(|o| class(o)).collect();
+            let fr: BTreeSet<String> = only_r.iter().map(|o| class(o)).collect();
+            rep.violation(
+                format!("aggregate-not-equivalent: only-with-aggregate={:?} only-with-dependencies={:?}", fl, fr),
+                format!("requesting the aggregate vs its dependencies gives different sets of terminal observations\n  with aggregate  [{}]\n    only here: {:?}\n  with dependencies [{}]\n    only here: {:?}", cl.short(), only_l, cr.short(), only_r),
+                json!({"engine": "actorcheck-pair", "cfg": cl, "cfg_rhs": cr, "actions": sl.sample_terminal_trace, "cfg_short": cl.short(), "pair_index": i}),
+            );
+        }
+    }
+    fill_report(rep, &out_l, "requested = [aggregate]");
+    fill_report(rep, &out_r, "requested = dependencies of the aggregate");
+    rep.set("pairs_compared", json!(compared));
     finalize(rep);
 }
